@@ -160,7 +160,7 @@ def record_one(spec):
     # as it is an admissible reading (rounding ties); otherwise the CSS meaning replaces it and every clause is judged on that
     css_override = []
     for side, val in (("text", text), ("bg", bg)):
-        rr = refs.css_parse(val) if isinstance(val, str) else None
+        rr = (refs.css_parse(val) or refs.lib_hsl_parse(val)) if isinstance(val, str) else None
         if rr is not None and rr["alpha"] is None and not (side == "text" and spec.get("comp")):
             cur = t_rgb if side == "text" else b_rgb
             if not all(cur[k] in rr["chans"][k] for k in range(3)):
@@ -339,6 +339,15 @@ def spell(c, kind, rnd):
         hue = float(m.group(1)) + rnd.choice([-360, -720, 360, -360])
         alt = "hsl(%.6f, %s)" % (hue, m.group(2))
         return alt if refs.css_read_opaque(alt) == tuple(c) else txt
+    if kind == "hslmixed":
+        # the library's own extension of hsl(): one of saturation / lightness as a percentage, the other as a bare fraction
+        import colorsys
+        h_, l_, s_ = colorsys.rgb_to_hls(c[0] / 255, c[1] / 255, c[2] / 255)
+        txt = ("hsl(%.6f, %.6f%%, %.8f)" % (h_ * 360, s_ * 100, l_)) if rnd.random() < 0.5 else ("hsl(%.6f, %.8f, %.6f%%)" % (h_ * 360, s_, l_ * 100))
+        rr = refs.lib_hsl_parse(txt)
+        if rr is not None and all(ch == {v} for ch, v in zip(rr["chans"], c)):
+            return txt
+        return hexs(c)
     if kind == "hslafn":
         h, s, l = _rgb_to_hsl_int(c)
         return "hsla(%d, %d%%, %d%%, %s)" % (h, s, l, rnd.choice(["0.5", "0.85", "1", "0.4"]))
@@ -518,6 +527,22 @@ def hairline_results(rnd, nscan):
         t, b = near_threshold(rnd, rnd.choice((3.0, 4.5, 7.0)), (0.02, 0.35))
         jobs.append((t, b, large, vr, 0 if k % 3 else 1))
     return [j for j in vlib.pool_map(_scan_hairline, jobs, chunksize=16) if j]
+
+
+_EQUILUM = {}
+
+
+def equilum(rnd):
+    """two different colours of (almost) exactly the same WCAG luminance (within 2e-5): any OTHER lightness measure - L*, OKLCH L,
+    a rounded weight set - may order them the other way round"""
+    key = id(rnd)
+    if key not in _EQUILUM:
+        samp = sorted((rand_colour(rnd) for _ in range(30000)), key=refs.wcag_lum)
+        _EQUILUM[key] = [(a, b) for a, b in zip(samp, samp[1:]) if a != b and abs(refs.wcag_lum(a) - refs.wcag_lum(b)) < 2e-5
+                         and max(abs(a[i] - b[i]) for i in range(3)) > 40]
+    prs = _EQUILUM[key]
+    a, b = rnd.choice(prs)
+    return (a, b) if rnd.getrandbits(1) else (b, a)
 
 
 def _scan_fallback(job):
